@@ -231,7 +231,11 @@ class DirectEval:
                 self.block(st["body"])
         elif op == "loop":
             # documented meaning: the index runs over range(start, stop, step) (stop excluded)
-            for i in range(st["start"], st["stop"], st["step"]):
+            stop = st["stop"]
+            if st.get("stop_from") is not None:
+                # the bound is a value the host read from an array after an earlier flush (a resolved Future passed as `stop`)
+                stop = self.arrays[st["stop_from"]["array"]][st["stop_from"]["idx"]]
+            for i in range(st["start"], stop, st["step"]):
                 self.tick()
                 self.vars[st["var"]] = i
                 self.iterations += 1
